@@ -165,9 +165,20 @@ func (g *vfGen) raceStress() {
 		}
 	}
 	roles := []string{"detect", "detect", "detect", "lookup", "lookup", "lookup", "limit", "limit", "extend", "extend", "extend"}
+	// the readers first: the very first Extend of the process must find detections and lookups in flight (a lock
+	// that is only taken "once the tree can change" is then seen by the race detector)
 	for i, r := range roles {
-		wg.Add(1)
-		go worker(i, r)
+		if r != "extend" {
+			wg.Add(1)
+			go worker(i, r)
+		}
+	}
+	time.Sleep(100 * time.Millisecond)
+	for i, r := range roles {
+		if r == "extend" {
+			wg.Add(1)
+			go worker(i, r)
+		}
 	}
 	time.Sleep(time.Duration(secs) * time.Second)
 	// burst: several goroutines extend the same parents back to back, released together, while the
